@@ -12,6 +12,7 @@
 from collections import defaultdict, deque
 
 from ..engine import short, where_of
+from ..flow import ALIAS as ALIAS_KIND
 from ..flow import ALIAS, COMPUTE, CTRL, DATA, MOVE, OUTCOME, SHAPE, last_seg
 
 # `BatchLCProof.evals` travels with the proof but is not the proof list: its entries are re-attached to their
@@ -524,6 +525,111 @@ def run_loopzip(rep, ctx, anchor, proof_adts, rule="R4c"):
                 rep.add(rule, key, False, "for loop at %s runs over zip(%s, ..): the proof decides how many of the expected "
                         "positions are checked - no length comparison dominates it and the vector is never accessed by "
                         "position" % (t["span"], name), t["span"])
+    return n
+
+
+# ---------------------------------------------------------------------------------------------------------
+# R4s: positions shifted by a filter before a positional pairing
+# (`flatten` over Options is left to the absence form of R3: after the Nones have been refused it drops nothing)
+SHIFTING = ("filter", "filter_map", "flat_map", "skip_while", "take_while", "dedup", "dedup_by", "dedup_by_key")
+CHAIN = ("iter", "into_iter", "iter_mut", "map", "enumerate", "rev", "cloned", "copied", "zip", "peekable", "by_ref", "inspect",
+         "skip", "take", "chain", "deref", "as_ref", "as_slice", "par_iter", "into_par_iter", "borrow") + SHIFTING
+GENERATORS = ("ops::Range", "iter::Repeat", "iter::Successors", "iter::FromFn", "iter::RepeatWith", "iter::Once", "RangeFrom", "RangeInclusive")
+
+
+def _chain_back(b, l, depth=0):
+    """(adaptor names, root local) walking back from iterator local `l` along receivers inside body b."""
+    names = []
+    seen = set()
+    while l not in seen and depth < 40:
+        seen.add(l)
+        depth += 1
+        ds = []
+        for blk in b.blocks:
+            if blk["cleanup"]:
+                continue
+            for st in blk["stmts"]:
+                if st["dst"]["l"] == l and not st["dst"]["p"]:
+                    ds.append(("s", st["rv"]))
+            t = blk["term"]
+            if t["k"] == "call" and t["dst"]["l"] == l and not t["dst"]["p"]:
+                ds.append(("c", t))
+        if len(ds) != 1:
+            break
+        kind, d = ds[0]
+        if kind == "s":
+            k = d.get("k")
+            pl = d.get("pl") if k in ("ref", "rawptr") else (d["ops"][0].get("pl") if k in ("use", "cast") and d.get("ops") and d["ops"][0]["k"] in ("copy", "move") else None)
+            if pl is None:
+                break
+            l = pl["l"]
+            continue
+        nm = (d.get("callee") or "").rsplit("::", 1)[-1]
+        if nm in CHAIN and d["args"] and d["args"][0]["k"] in ("copy", "move"):
+            names.append(nm)
+            l = d["args"][0]["pl"]["l"]
+            continue
+        break
+    return names, l
+
+
+def run_shifted_pairing(rep, ctx, anchor, rule="R4s"):
+    """`zip` pairs by position. A side whose lazy adaptor chain drops elements (`filter`, `filter_map`, `flatten`, ..)
+    no longer has element i at position i; zipped with a *stored* sequence that was not filtered along with it (a vector
+    of per-item randomizers, a table indexed by item), every element after the first dropped one meets its neighbour's
+    partner. The same holds for `enumerate` placed after such an adaptor when the index is then used to index a table.
+    Zipping with a generator (`0..`, `repeat_with`) or with something collected from the filtered sequence is fine."""
+    g = ctx.graph(anchor)
+    f = ctx.facts
+    n = 0
+    per = defaultdict(int)
+    idx_locals = None
+    for bid in sorted(g.scope):
+        b = f.bodies[bid]
+        for i, t in b.calls():
+            c = t.get("callee") or ""
+            if c in ZIP_CALLEES and len(t["args"]) == 2 and all(a["k"] in ("copy", "move") for a in t["args"]):
+                ch = [_chain_back(b, a["pl"]["l"]) for a in t["args"]]
+                sh = [[x for x in names if x in SHIFTING] for names, _ in ch]
+                if bool(sh[0]) == bool(sh[1]):
+                    continue
+                other = ch[1] if sh[0] else ch[0]
+                oty = b.locals[other[1]]["ty"] or ""
+                if any(x in oty for x in GENERATORS) or any(x in ("repeat", "repeat_with", "successors", "from_fn") for x in other[0]):
+                    continue
+                n += 1
+                k = per[bid]
+                per[bid] += 1
+                rep.add(rule, "%s:shifted-zip@%s#%d" % (anchor.key, short(bid), k), False,
+                        "one side of the zip at %s has passed through `%s`, which drops elements, the other side (%s) has not: "
+                        "after the first dropped element every item meets its neighbour's partner" % (
+                            t["span"], (sh[0] or sh[1])[0], b.locals[other[1]].get("name") or "a stored sequence"), t["span"])
+            elif c.rsplit("::", 1)[-1] == "enumerate" and "iter" in c.lower() and t["args"] and t["args"][0]["k"] in ("copy", "move"):
+                names, root = _chain_back(b, t["args"][0]["pl"]["l"])
+                drop = [x for x in names if x in SHIFTING]
+                if not drop:
+                    continue
+                if idx_locals is None:
+                    idx_locals = set()
+                    for b2 in g.scope:
+                        body2 = f.bodies[b2]
+                        for (sp, pl) in _indexed_places(body2):
+                            for e in pl["p"]:
+                                if isinstance(e, dict) and "idx" in e:
+                                    idx_locals.add((b2, e["idx"]))
+                        for j, tt in body2.calls():
+                            if (tt.get("callee") or "") in INDEX_CALLEES and len(tt["args"]) == 2 and tt["args"][1]["k"] in ("copy", "move"):
+                                idx_locals.add((b2, tt["args"][1]["pl"]["l"]))
+                reach = {st[0] for st in g.reach([("STATE", ("CALLRES", bid, i), "usize")], kinds=(DATA, ALIAS_KIND))}
+                hit = sorted(x for x in idx_locals if x in reach)
+                if not hit:
+                    continue
+                n += 1
+                k = per[bid]
+                per[bid] += 1
+                rep.add(rule, "%s:shifted-index@%s#%d" % (anchor.key, short(bid), k), False,
+                        "`enumerate` at %s numbers what is left after `%s`, and that number is then used to index a table: after "
+                        "the first dropped element every item reads its neighbour's entry" % (t["span"], drop[0]), t["span"])
     return n
 
 
